@@ -72,11 +72,12 @@ func raceCase1(c raceCase, nonce string) (tr *trace, err error) {
 	l := newLayout(c.Ver, c.Ctls, nonce, c.Id)
 	setType(c.Ver)
 	tr = &trace{Id: c.Id, Kind: "race", Ver: c.Ver, Ctls: l.ctls, Pids: []string{}, Ev: []event{}}
+	tr0 := tr
 	defer func() {
 		verifhook.ClearGates()
 		cgroup.SetRandomNameForVerif(nil)
 		for _, d := range l.dirs() {
-			tr.Left += len(d)
+			tr0.Left += len(d)
 		}
 		l.cleanup()
 	}()
@@ -137,7 +138,7 @@ func raceCase1(c raceCase, nonce string) (tr *trace, err error) {
 		}
 		i := randIdx[g]
 		if i >= len(c.Creators[g-1].Names) {
-			return ""
+			return noName
 		}
 		randIdx[g] = i + 1
 		return c.Creators[g-1].Names[i]
